@@ -190,6 +190,21 @@ def gen_cases(tier, seed):
     from .c03 import base_in_submission_cases
 
     cases += base_in_submission_cases(rng, quick, family='E-base-in-submission')
+    # (E2) ... and raised inside REQUEST-stage work (a request, an on_progress callback; also inside the transfer's final task): whatever
+    # result() then reports (see finding F9, judged under C03), the transfer must come to an end
+    from .c03 import base_scenarios
+
+    for bi, base in enumerate(base_scenarios(rng)):
+        if base.get('executor'):
+            continue
+        t = base['transfers'][0]
+        sites = [k for k in sites_for(t, 16, 8) if ('/s3:' in k and 'HeadObject' not in k) or '/cb:on_progress' in k]
+        for k in (sites if not quick else rng.sample(sites, min(2, len(sites)))):
+            sp = copy.deepcopy(base)
+            sp['seed'] = rng.randrange(1 << 30)
+            sp['family'] = 'E2-base-in-request-stage'
+            sp['plan'] = {'faults': [{'at': k, 'phase': rng.choice(['before', 'after']), 'kind': rng.choice(['base', 'systemexit']), 'tag': f'FAULT-breq-{bi}'}]}
+            cases.append(sp)
     # (D) re-entrant subscribers
     for kind, extra in gen.KINDS:
         for where, acts in REENTER.items():
